@@ -610,6 +610,12 @@ func (v *VecDense) MulVec(a Matrix, b Vector) {
 	}
 
 	v.reuseAsNonZeroed(r)
+	if v != aU {
+		// Check a against the receiver itself before the receiver
+		// is possibly replaced by a workspace, and before anything
+		// is written.
+		v.asDense().checkOverlapMatrix(aU)
+	}
 	var restore func()
 	if v == aU {
 		v, restore = v.isolatedWorkspace(aU.(*VecDense))
